@@ -7,7 +7,7 @@ From J5V.gen Require Id62Gen RulesGen.
 From J5V.model Require Import ProtoPrint ProtoPrintFile ProtoParseFile.
 From J5V.proofs Require Import RulesProofs RulesReadProofs RulesGenProofs RulesReadGenProofs.
 From J5V.model Require Import RulesView RulesTextModel ProtoPrintFileWf RulesNested RulesInlineEnum.
-From J5V.proofs Require Import ProtoPrintFileSemProofs ProtoPrintFileFullProofs RulesViewProofs RulesTextProofs RulesNestedProofs RulesInlineEnumProofs.
+From J5V.proofs Require Import ProtoPrintFileSemProofs ProtoPrintFileFullProofs RulesViewProofs RulesTextProofs RulesNestedProofs RulesInlineEnumProofs RulesEnumExactProofs.
 Import ListNotations.
 Local Open Scope N_scope.
 
@@ -148,6 +148,15 @@ Theorem C04_inline_enum : forall here idx d i c,
 Proof. exact c04_inline_enum. Qed.
 Print Assumptions C04_inline_enum.
 
+(* ... exactly: a compiled inline-enum field reads back as declared iff the field lies in rt_ok
+   and the enum in the enum fragment *)
+Theorem C04_inline_enum_exact : forall here idx d i c,
+  write_inline_enum idx d i = Ok c ->
+  (read_inline_enum (env_of_decl (ie_decl (p_name d) i)) here c = Ok (norm_inline_enum here idx d i)
+   <-> inline_enum_rt d i = true).
+Proof. exact c04_inline_enum_exact. Qed.
+Print Assumptions C04_inline_enum_exact.
+
 (* non-vacuity: Foo { field x4Y array:enum { option UNSPECIFIED {| nothing}  option RED
    items.enum.rules.notIn = ["RED"] } } — the enum is Foo_X4Y with prefix X_4_Y_, options
    UNSPECIFIED = 0 (described), RED = 1; the rule reads back as ["RED"] *)
@@ -272,6 +281,13 @@ Print Assumptions C04_norm_int_meaning.
 Theorem C04_enum : forall e, enum_rt e = true -> read_enum (write_enum e) = Ok (norm_enum e).
 Proof. exact c04_enum. Qed.
 Print Assumptions C04_enum.
+
+(* the enum fragment is exact: an enum declaration reads back as declared iff every
+   description survives the reader's cleaner and an explicit zero option is spelled the
+   standard way *)
+Theorem C04_enum_exact : forall e, read_enum (write_enum e) = Ok (norm_enum e) <-> enum_rt e = true.
+Proof. exact c04_enum_exact. Qed.
+Print Assumptions C04_enum_exact.
 
 (* non-vacuity: an enum with an explicit zero option, a prefixed and a short option
    name, option info and an info field lies in the fragment and reads back as declared *)
